@@ -559,4 +559,6 @@ SUBCHECKS = [
     SubCheck("bip21", check_bip21, "bitcoin: URIs over every address type x network, amounts 0..21e14 sat, unicode / reserved-character labels, messages and extra parameters: parse(serialize(x)) == x, an independent RFC 3986 reader recovers every field from what the library wrote, the library reads what an independent writer wrote (any scheme case, any parameter order), network type read off the address; exponent / signed / comma / over-range / sub-satoshi amounts, req- parameters, other schemes, malformed escapes and a corrupted address are refused; non-trivial: at least one parameter", bip21_case, quick=4000, thorough=40000),
     SubCheck("keys", check_keys, "WIF and xprv/xpub (all BIP32/SLIP132 versions): encode = reference, decode inverse, mutated strings accepted iff the reference accepts", keys_case, quick=3000, thorough=30000),
     SubCheck("ripemd160", check_ripemd, "pure-Python RIPEMD160 == OpenSSL's on lengths around block boundaries", ripemd_case, quick=1500, thorough=15000),
+    SubCheck("coverage_guided", None, 'atheris / libFuzzer campaign (btclib instrumented, in-process) from arbitrary text over the address, key and URI decoders, seeded with valid addresses and keys: a string witness_from_address accepts (and that has no blanks around it) is re-encoded by address_from_witness to its lower-case self; non-trivial: inputs libFuzzer kept because they reached new coverage',
+             units=lambda tier: __import__("checks.c19_fuzz", fromlist=["units"]).units(tier, "C06"), run_unit=lambda unit, col: __import__("checks.c19_fuzz", fromlist=["run_unit"]).run_unit(unit, col, "C06")),
 ]
